@@ -8,7 +8,7 @@ open Rsactor.Extracted
 theorem lifecycle_arms :
     lifecycle.termKilledOnSignal = true ∧ lifecycle.termNotKilledOnClosed = true ∧
     lifecycle.termOnStopWithFlag = true ∧ lifecycle.termFailShape = true ∧ lifecycle.termBreaks = true ∧
-    lifecycle.mailHandlesInline = true ∧ lifecycle.mailStopOrClosedArm = true ∧ lifecycle.mailOnStopFalse = true ∧
+    lifecycle.mailHandlesInline = true ∧ lifecycle.mailStopOrClosedArm = true ∧ lifecycle.mailRechecksKill = true ∧ lifecycle.mailOnStopWithFlag = true ∧
     lifecycle.mailFailShape = true ∧ lifecycle.mailBreaks = true ∧ lifecycle.runTrueContinues = true ∧
     lifecycle.runFalseDisables = true ∧ lifecycle.runErrOnStopFalse = true ∧ lifecycle.runErrPhases = true ∧
     lifecycle.runErrFailShape = true ∧ lifecycle.startFailShape = true ∧ lifecycle.dropsOwnRefAfterStart = true ∧
